@@ -90,6 +90,35 @@ SEEDS = {
         "edit_lines": [3, 10, 16],
         "comment": "# note", "noop": "pass", "import": "from %s import %s", "lib2": "lib2_moved.py",
     },
+    # php: the inserted comment is a block comment that holds a URL (// inside /* */), and the program has another block comment further down
+    "php_flow_calls": {
+        "lang": "php", "main": "main.php", "lib": "lib_moved.php",
+        "text": [
+            "<?php",                          # 1
+            "function source_wrap() {",      # 2
+            "    $t = source();",
+            "    return $t;",
+            "}",
+            "function helper($v) {",         # 6
+            "    $w = $v;",
+            "    return $w;",
+            "}",
+            "function handler() {",          # 10
+            "    $a = source_wrap();",
+            "    $b = helper($a);",
+            "    sink($b);",
+            "    /* tail of the handler */",
+            "    return $b;",
+            "}",
+            "handler();",                    # 17
+        ],
+        "defs": [{"name": "source_wrap", "first": 2, "last": 5, "movable": False}, {"name": "helper", "first": 6, "last": 9, "movable": False},
+                 {"name": "handler", "first": 10, "last": 16, "movable": False}],
+        "names": ["helper", "source_wrap", "handler", "a", "b", "v"],
+        "edit_lines": [2, 7, 10, 13, 17],
+        "comment": "/* see http://example.com/x */", "noop": ";", "import": "", "lib2": "lib2_moved.php",
+        "flows_optional": True,      # lian reports no taint flow for this php program; call edges and bindings are the observables
+    },
     "js_flow_calls": {
         "lang": "javascript", "main": "main.js", "lib": "lib_moved.js",
         "text": [
@@ -209,7 +238,7 @@ def run(tier, seed_no):
         flows, calls, binds = observe(seed, r0, base_files)
         names = set(seed["names"])
         binds = [b for b in binds if b[1] in names]
-        if not flows or not calls or not binds:
+        if (not flows and not seed.get("flows_optional")) or not calls or not binds:
             v.machinery_failure("seed %s: lian reports no flow / call / binding on the unedited program (vacuous): %s %s %s" % (sname, flows, calls, binds))
             continue
         n = len(seed["text"])
